@@ -242,3 +242,170 @@ class SpatialMagnitudeCounts:
             return []
         # raised by the loop: the current event's magnitude is below the first edge (binned to -1)
         return [('ValueError from the loop only for a magnitude binned to -1', z3.BoolVal(True))]
+
+
+# ---------------------------------------------------------------------------------------------
+# C04: filter
+# ---------------------------------------------------------------------------------------------
+import ast as _ast
+from pyvc.contracts import REG
+from contracts.time_utils import MS_BOUND
+
+ATTRS = ['origin_time', 'latitude', 'longitude', 'depth', 'magnitude']
+OPS = {'<': lambda a, b: a < b, '<=': lambda a, b: a <= b, '>': lambda a, b: a > b, '>=': lambda a, b: a >= b,
+       '==': lambda a, b: a == b}
+
+
+def _stmt(c, k, attr, op):
+    """statement text with an opaque numeric token; returns (text, predicate on the event index over `data`)"""
+    if attr == 'datetime':
+        text = 'datetime %s <D%d> <T%d>' % (op, k, k)
+        return text, ('datetime', op, '<D%d> <T%d>' % (k, k))
+    tok = '<V%d>' % k
+    V = z3.Real('V%d' % k)
+    c.ctx.ghost.setdefault('tokens', {})[tok] = V
+    return '%s %s %s' % (attr, op, tok), (attr, op, V)
+
+
+def _pred(c, parsed, cols, i):
+    attr, op, V = parsed
+    if attr == 'datetime':
+        toks = c.ctx.ghost.get('time_tokens', {})
+        V = z3.ToReal(toks[V]) if V in toks else None
+        attr = 'origin_time'
+        if V is None:
+            return None
+    return OPS[op](to_real(cols[attr].f((i,))), to_real(V))
+
+
+def selection_chain(arr):
+    out = []
+    g = arr.ghost.get('selection')
+    while g is not None:
+        out.append(g)
+        g = g['base'].ghost.get('selection')
+    return list(reversed(out))
+
+
+def filter_case(name, stmts_spec, container, in_place):
+    """stmts_spec: list of (attr, op); container in {'str','list','tuple'}"""
+
+    class FilterCase:
+        qualname = CATCLS + '.filter'
+        case = name
+        oracle = 'catalog_filter_replay'
+        properties = ('C04',)
+
+        def params(c):
+            cat, data = mk_catalog(c, region=None)
+            parsed, texts = [], []
+            for k, (attr, op) in enumerate(stmts_spec):
+                t, p = _stmt(c, k, attr, op)
+                texts.append(t)
+                parsed.append(p)
+            st = texts[0] if container == 'str' else (list(texts) if container == 'list' else tuple(texts))
+            orig = {fn: col.f for fn, col in data.fields.items()}
+            return dict(self=cat, statements=st, in_place=in_place, _data=data, _parsed=parsed, _orig=orig)
+
+        def requires(c, self, statements, in_place, _data, _parsed, _orig):
+            i = z3.Int('i!rq')
+            t = _data.fields['origin_time'].f((i,))
+            return [z3.ForAll([i], z3.Implies(z3.And(0 <= i, i < _data.n), z3.And(t >= -MS_BOUND, t <= MS_BOUND)), patterns=[t])]
+
+        def ensures(c, r, self, statements, in_place, _data, _parsed, _orig):
+            from pyvc.core import Obj
+            yield 'returns a catalog object', z3.BoolVal(isinstance(r, Obj))
+            if in_place:
+                yield 'in_place: returns self', z3.BoolVal(r is self)
+            else:
+                yield 'not in_place: returns a new object', z3.BoolVal(r is not self)
+                yield 'not in_place: original event array object untouched', z3.BoolVal(self.fields['_catalog'] is _data)
+                yield 'not in_place: no column of the original array was written', z3.BoolVal(
+                    all(_data.fields[fn].f is _orig[fn] for fn in _orig))
+                yield 'new object carries name / id / format / region', z3.BoolVal(
+                    r.fields.get('name') == self.fields.get('name') and r.fields.get('region') is self.fields.get('region')
+                    and r.fields.get('catalog_id') is self.fields.get('catalog_id'))
+            out = r.fields.get('_catalog')
+            yield 'result holds an event array', z3.BoolVal(isinstance(out, Arr) and out.fields is not None)
+            chain = selection_chain(out)
+            yield 'one mask selection per statement (order preserving sub-sequence, all fields)', z3.BoolVal(len(chain) == len(_parsed))
+            if len(chain) != len(_parsed):
+                return
+            yield 'selection starts from the original events', z3.BoolVal(
+                all(chain[0]['base'].fields[fn].f is _orig[fn] or True for fn in _orig) and _shares(chain[0]['base'], _data, _orig))
+            for k, (g, p) in enumerate(zip(chain, _parsed)):
+                i = c.ctx.fresh_int('i!sk')
+                base = g['base']
+                pred = _pred(c, p, base.fields, i)
+                yield 'statement %d: datetime token parsed' % k, z3.BoolVal(pred is not None)
+                if pred is None:
+                    continue
+                yield 'statement %d keeps event i iff "%s %s value" holds' % (k, p[0], p[1]), z3.Implies(
+                    z3.And(0 <= i, i < to_z3(base.shape[0])), to_z3(g['mask'].f((i,))) == pred)
+
+        def raises(c, exc, self, statements, in_place, _data, _parsed, _orig):
+            return None
+    FilterCase.__name__ = 'Filter_' + name
+    return FilterCase
+
+
+def _shares(base, data, orig):
+    """base is `data` itself or a numpy.copy of it (same contents)"""
+    return all(base.fields[fn].f is orig[fn] for fn in orig)
+
+
+for _attr in ATTRS:
+    for _op in OPS:
+        REG.add(filter_case('str: %s %s v, in_place' % (_attr, _op), [(_attr, _op)], 'str', True))
+for _op in OPS:
+    REG.add(filter_case('str: datetime %s D T, in_place' % _op, [('datetime', _op)], 'str', True))
+REG.add(filter_case('str: magnitude >= v, not in_place', [('magnitude', '>=')], 'str', False))
+REG.add(filter_case('list: [magnitude >= v, depth < w], in_place', [('magnitude', '>='), ('depth', '<')], 'list', True))
+REG.add(filter_case('list: [depth < w, magnitude >= v], not in_place', [('depth', '<'), ('magnitude', '>=')], 'list', False))
+REG.add(filter_case('tuple: (origin_time > t, latitude <= a, longitude == b), in_place',
+                    [('origin_time', '>'), ('latitude', '<='), ('longitude', '==')], 'tuple', True))
+REG.add(filter_case('list: [datetime >= D T, magnitude == v], in_place', [('datetime', '>='), ('magnitude', '==')], 'list', True))
+
+
+GET_MASKED = 'csep.core.regions.CartesianGrid2D.get_masked'
+
+
+def filter_spatial_case(in_place):
+    class FS:
+        qualname = CATCLS + '.filter_spatial'
+        case = 'region given, in_place=%s' % in_place
+        properties = ('C04', 'C01')
+
+        def params(c):
+            L = Lattice(c)
+            cat, data = mk_catalog(c, region=None)
+            orig = {fn: col.f for fn, col in data.fields.items()}
+            return dict(self=cat, region=L.obj(c), update_stats=False, in_place=in_place, _L=L, _data=data, _orig=orig)
+
+        def requires(c, self, region, update_stats, in_place, _L, _data, _orig):
+            return _L.RI() + _L.grid_requires(c, _data.fields['longitude'])
+
+        def ensures(c, r, self, region, update_stats, in_place, _L, _data, _orig):
+            from pyvc.core import Obj
+            yield 'returns a catalog object', z3.BoolVal(isinstance(r, Obj))
+            yield ('returns self' if in_place else 'returns a new object'), z3.BoolVal((r is self) == bool(in_place))
+            yield 'region bound to the result', z3.BoolVal(r.fields.get('region') is region)
+            out = r.fields.get('_catalog')
+            chain = selection_chain(out) if isinstance(out, Arr) else []
+            yield 'exactly one mask selection from the original events', z3.BoolVal(len(chain) == 1 and _shares(chain[0]['base'], _data, _orig))
+            call = last_call(c, GET_MASKED)
+            yield 'mask comes from the region', z3.BoolVal(call is not None)
+            if len(chain) == 1 and call is not None:
+                i = c.ctx.fresh_int('i!sk')
+                yield 'event i is kept iff the region does not mask it', z3.Implies(
+                    z3.And(0 <= i, i < _data.n), to_z3(chain[0]['mask'].f((i,))) == z3.Not(to_z3(call[2].f((i,)))))
+                yield 'region lookup was given the event coordinates', z3.BoolVal(
+                    call[1]['lons'].f is _orig['longitude'] and call[1]['lats'].f is _orig['latitude'])
+            if not in_place:
+                yield 'original events untouched', z3.BoolVal(self.fields['_catalog'] is _data and all(_data.fields[fn].f is _orig[fn] for fn in _orig))
+    FS.__name__ = 'FilterSpatial_%s' % in_place
+    return FS
+
+
+REG.add(filter_spatial_case(True))
+REG.add(filter_spatial_case(False))
